@@ -603,6 +603,10 @@ impl<'a> Sess<'a> {
             self.f.nontrivial_c13 = true;
         }
         let got_ovf = i2 & iin2::EVENT_BUFFER_OVERFLOW != 0;
+        if self.overflowed && !got_ovf {
+            // C03: an event may only be displaced by an overflow that is reported
+            self.fail03("L7-overflow-not-reported", format!("events were discarded by an overflow, but response #{no} does not report EVENT_BUFFER_OVERFLOW"));
+        }
         if got_ovf != self.overflowed {
             self.fail13("I-overflow", format!("response #{no} reports EVENT_BUFFER_OVERFLOW={got_ovf}, model says {}", self.overflowed));
         }
